@@ -454,6 +454,27 @@ example : Spec.valid 2 [(⟨0, (0, 0)⟩ : V (Nat × Nat)), ⟨1, (7, 0)⟩] (Sp
   refine ⟨by decide, by decide, ?_⟩
   simp [Spec.ConvOK, Spec.optToVar]
 
+/-- `optional<T>(optional<U> const&)` / `(optional<U>&&)` from an engaged source: the constructor default-initializes
+    `_var{nullopt}` and then runs `emplace(*other)`; seen through `absO` the two variant steps are the single step
+    "initialized from the converted value" of [optional.ctor] -/
+theorem optional_convCtor_refines (c : Cfg) (hc : c.n = 2) (el : Elem α) (ht : TrivOK c el)
+    (nullv : α) (st : List (V α)) (hwf : WF c st) (k : Nat) (x : α) (hk : k < st.length) :
+    ((step c el st (.make k 0 nullv)).bind fun st1 => step c el st1 (.emplace k 1 x)).map (List.map Spec.absO)
+      = .ok (Spec.ostep el (st.map Spec.absO) (.val k false true .conv x)) := by
+  have hv1 : Spec.valid c.n st (.make k 0 nullv) = true := by simp [Spec.valid, hk, hc]
+  rw [step_refines_partial c el ht Spec.noFb st hwf _ hv1 (fbHit_noFb _ _) (by simp [Spec.ConvOK])]
+  have hwf1 := wf_step c el Spec.noFb st hwf _ hv1
+  have hv2 : Spec.valid c.n (Spec.step el Spec.noFb st (.make k 0 nullv)) (.emplace k 1 x) = true := by
+    simp [Spec.valid, Spec.step, hk, hc]
+  show (step c el (Spec.step el Spec.noFb st (.make k 0 nullv)) (.emplace k 1 x)).map (List.map Spec.absO) = _
+  rw [step_refines_partial c el ht Spec.noFb _ hwf1 _ hv2 (fbHit_noFb _ _) (by simp [Spec.ConvOK])]
+  simp only [ok_map]
+  congr 1
+  have hk' : k < (st.map Spec.absO).length := by simpa using hk
+  simp only [Spec.step, Spec.ostep, List.set_set, List.map_set, List.getElem?_eq_getElem hk']
+  cases (List.map Spec.absO st)[k] <;> simp [Spec.absO, consArg]
+
+example : (0 : Nat) < [(⟨0, (0, 0)⟩ : V (Nat × Nat))].length := by decide
 /-- `etl::expected<T,E>` (value = index 0, in-place construction, `emplace = _u.emplace<0>`, copy/move/swap = the
     variant's) is a simulation of [expected.object.assign] / [expected.object.cons] on value-or-error.  `_partial`:
     `hfb` excludes exactly the steps of known finding F-C07-copy-assign-no-copy-then-move (a copy assignment value ←
